@@ -53,7 +53,7 @@ def _roles(ctx):
     # leaf placement: Server method that stores into self.apps[...]
     puts = []
     removes = []
-    for func in server.methods.values():
+    for func in server.live_methods():
         for sub in K.walk_no_nested(func.node):
             if isinstance(sub, ast.Assign) and any(
                     isinstance(t, ast.Subscript) and
@@ -72,7 +72,7 @@ def _roles(ctx):
     # free_capacity
     preds = []
     for cls in (node_cls, server):
-        for func in cls.methods.values():
+        for func in cls.live_methods():
             for sub in K.walk_no_nested(func.node):
                 if isinstance(sub, ast.Call):
                     atom = nz.atom(sub)
@@ -354,7 +354,7 @@ def _owner(ctx, server, put, remove):
                               'Server.__init__'}
     sites = 0
     for mod in mods:
-        for func in mod.all_functions():
+        for func in mod.live_functions():
             for sub in K.walk_no_nested(func.node):
                 targets = []
                 if isinstance(sub, ast.Assign):
@@ -455,7 +455,7 @@ def _single_placement(ctx):
     ctx.require(count >= 3, 'placement calls in the placement loop')
     # Loader.restore_placement: the named exception - server emptied first
     loader = ctx.index.get_class(K.LOADER, 'Loader')
-    func = K.one([f for f in loader.methods.values()
+    func = K.one([f for f in loader.live_methods()
                   if K.func_calls_method(f, 'restore') and
                   K.func_calls_method(f, 'remove_all')],
                  'Loader method restoring recorded placements')
@@ -512,7 +512,7 @@ def _conversion(ctx):
                 if 'treadmill.scheduler' in m.imports.values()]
     seen = 0
     for mod in mods:
-        for func in mod.all_functions():
+        for func in mod.live_functions():
             for sub in K.walk_no_nested(func.node):
                 if not isinstance(sub, ast.Call):
                     continue
@@ -553,7 +553,7 @@ def _conversion(ctx):
 
 
 def _restore(ctx, server, put):
-    func = K.one([f for f in server.methods.values()
+    func = K.one([f for f in server.live_methods()
                   if f is not put and any(
                       isinstance(s, ast.Assign) and any(
                           N.txt(t).endswith('.lease') for t in s.targets)
@@ -669,7 +669,7 @@ def _model_exit(ctx):
     list them)."""
     loader = ctx.index.get_class(K.LOADER, 'Loader')
     count = 0
-    for func in loader.methods.values():
+    for func in loader.live_methods():
         graph = None
         for sub in K.walk_no_nested(func.node):
             if isinstance(sub, ast.Delete) and any(
